@@ -9,3 +9,4 @@ void sim_init_files(void);
 unsigned char sim_pattern(long src, long off);
 void sim_register_region(const void *base, size_t len, long src, long off);
 void sim_clear_regions(void);
+void sim_heap_check(void);
